@@ -122,4 +122,11 @@ theorem to_char_array_src_eq (string : Str) :
     SrcStrings.to_char_array string = Strings.toCharArray string := by
   simp [SrcStrings.to_char_array, Strings.toCharArray]
 
+theorem str_src_eq (value : Atom) : SrcStrings.str_ value = Strings.strOf value := by
+  rcases value with _ | b | i | s
+  · simp [SrcStrings.str_, Strings.strOf, PyStr.atomIsNone]
+  · cases b <;> simp [SrcStrings.str_, Strings.strOf, PyStr.atomIsNone, PyStr.atomIsTrue, PyStr.atomIsFalse]
+  · simp [SrcStrings.str_, Strings.strOf, PyStr.atomIsNone, PyStr.atomIsTrue, PyStr.atomIsFalse, PyStr.pyStr]
+  · simp [SrcStrings.str_, Strings.strOf, PyStr.atomIsNone, PyStr.atomIsTrue, PyStr.atomIsFalse, PyStr.pyStr]
+
 end Yaql.Props.SrcStrings
